@@ -29,13 +29,13 @@ def post(ctx, d):
         from . import lib
         lib.violation(PID, failing)
         ctx.violations += 1
-        return "real-clock TCP sample disagrees with the model (replay written above)", cov
+        return None, cov      # the violation line is already printed; run() turns it into exit 1
     return None, cov
 
 
 def run(ctx):
     nways = {t: len(gen_ttl.attach_ways(t)) for t in MODEL_TYPES}
-    return memlib.run_family(
+    rc = memlib.run_family(
         ctx, PID, make_cases, runner=ttllib.memx_runner("view"),
         rule="(a) matrix: value type x way of attaching/keeping/removing a deadline (EXPIRE x {none,NX,XX,GT,LT} x "
              "{no, earlier, later existing deadline}, EXPIRE 0/negative/twice, PERSIST, SETEX, SET EX/PX(1,999,1000,1001,1500,2000)/"
@@ -49,3 +49,4 @@ def run(ctx):
                   "exercised by the real-clock TCP sample (thorough)"],
         extra_cov=dict(value_types=MODEL_TYPES, attach_ways=nways, probes=len([p for p in gen_ttl.PROBES.values() if p[0] in MODEL_FAMILIES])),
         post=post)
+    return 1 if ctx.violations else rc
